@@ -554,6 +554,7 @@ type c12Hit struct {
 	step  *job.Step // in-process command, nil for a CLI finding
 	cli   []string  // CLI arguments for a process-level finding
 	fault *Fault
+	extra []FSEntry
 }
 
 func runC12(tier string, seed uint64) int {
@@ -718,6 +719,7 @@ func runC12(tier string, seed uint64) int {
 		cli   []string
 		real  bool
 		fault *Fault
+		extra []FSEntry // further entries of the scratch tree (directory-argument faults)
 	}
 	var procs []procCase
 	pr := sub(seed, "C12", "procs")
@@ -735,7 +737,10 @@ func runC12(tier string, seed uint64) int {
 			bn, bp := splitKey(b)
 			procs = append(procs, procCase{m: m, cli: []string{"eval", "--dirpath", "m", "-s", ap, "-n", an, "-d", bp, "--destination-namespace", bn, "-p", pick(pr, []string{"80", "8080", "53"}), "--protocol", pick(pr, []string{"tcp", "udp"})}})
 		}
-		if pr.chance(1, realFrac*4) {
+		whole := strings.Contains(m.desc, "whole document") || strings.Contains(m.desc, "stored twice")
+		if whole || pr.chance(1, realFrac*4) {
+			// lost and doubled documents are the cheapest way to a fatal library error (dangling references,
+			// duplicate names): the CLI's own error paths are exercised on every one of them
 			procs = append(procs, procCase{m: m, real: true, cli: pick(pr, [][]string{{"list", "--dirpath", "m"}, {"list", "--dirpath", "m", "--exposure", "-o", "json"}, {"diff", "--dir1", "m", "--dir2", "orig", "-o", "md"}, {"diff", "--dir1", "orig", "--dir2", "m"}})})
 		}
 	}
@@ -754,6 +759,37 @@ func runC12(tier string, seed uint64) int {
 			procs = append(procs, procCase{m: m, fault: f, cli: pick(pr, [][]string{{"list", "--dirpath", "m"}, {"list", "--dirpath", "m", "--exposure"}, {"diff", "--dir1", "m", "--dir2", "orig"}})})
 		}
 	}
+	// faults on the directory argument itself: a path that cannot be stat'ed or opened for a reason other
+	// than "does not exist" (symlink loop, a regular file in the middle of the path, an over-long name,
+	// an injected EACCES / EIO on the directory), next to a healthy second directory
+	nDirFaults := 40
+	if tier == "thorough" {
+		nDirFaults = 600
+	}
+	for k := 0; k < nDirFaults; k++ {
+		m := &muts[pr.intn(len(muts))]
+		bad, extra := "loopdir", []FSEntry{{Path: "loopdir", Link: "loopdir"}}
+		var fault *Fault
+		switch pr.intn(6) {
+		case 0:
+		case 1:
+			bad = "orig/d000.yaml/sub" // ENOTDIR
+			extra = nil
+		case 2:
+			bad = strings.Repeat("n", 300) // ENAMETOOLONG
+			extra = nil
+		case 3:
+			bad, extra = "dangling", []FSEntry{{Path: "dangling", Link: "/nonexistent/dir"}}
+		default:
+			bad, extra = "m", nil
+			if haveStrace {
+				fault = &Fault{Syscall: pick(pr, []string{"newfstatat", "openat"}), Path: "m", Errno: pick(pr, []string{"EACCES", "EIO", "ELOOP", "ENOTDIR"}), When: pr.between(1, 2)}
+			}
+		}
+		cli := pick(pr, [][]string{{"list", "--dirpath", bad}, {"diff", "--dir1", bad, "--dir2", "orig"}, {"diff", "--dir1", "orig", "--dir2", bad}, {"diff", "--dir1", bad, "--dir2", "orig", "--fail"},
+			{"eval", "--dirpath", bad, "-s", "a", "-d", "b", "-p", "80"}, {"list", "--dirpath", bad, "--exposure", "--fail"}})
+		procs = append(procs, procCase{m: m, real: true, cli: cli, fault: fault, extra: extra})
+	}
 	procHits := make([]*c12Hit, len(procs))
 	procInfra := make([]string, len(procs))
 	procInj := make([]int, len(procs))
@@ -761,6 +797,7 @@ func runC12(tier string, seed uint64) int {
 		ctx := &ctxs[p.m.ctx]
 		lay := canonicalLayout(len(ctx.docs))
 		fs := append(lay.fs("orig", ctx.docs), lay.fs("m", p.m.docs(ctx))...)
+		fs = append(fs, p.extra...)
 		run := Run{FS: fs, CLI: p.cli, Seed: 1, RealEx: p.real}
 		if p.fault != nil {
 			run.Faults = []Fault{*p.fault}
@@ -785,7 +822,7 @@ func runC12(tier string, seed uint64) int {
 					}
 				}
 			}
-			procHits[i] = &c12Hit{m: procs[i].m, sig: s, what: what, cli: procs[i].cli, fault: procs[i].fault}
+			procHits[i] = &c12Hit{m: procs[i].m, sig: s, what: what, cli: procs[i].cli, fault: procs[i].fault, extra: procs[i].extra}
 		}
 	})
 	injected := 0
@@ -892,6 +929,7 @@ func c12Witness(ctxs []c12Context, h *c12Hit, seed uint64, count int) *Replay {
 		lay := canonicalLayout(len(docs))
 		fs := append(lay.restrict(keep).fs("m", subsetDocs(docs, keep)), lay.restrict(keep).fs("orig", subsetDocs(ctx.docs, keep))...)
 		if h.cli != nil {
+			fs = append(fs, h.extra...)
 			run := Run{FS: fs, CLI: h.cli, Seed: 1, RealEx: true}
 			if h.fault != nil {
 				run.Faults = []Fault{*h.fault}
@@ -967,7 +1005,7 @@ func c12Witness(ctxs []c12Context, h *c12Hit, seed uint64, count int) *Replay {
 		all[i] = i
 	}
 	keep := all
-	if h.fault == nil { // positional file names matter for a system-call fault plan
+	if h.fault == nil && h.extra == nil && !strings.Contains(strings.Join(h.cli, " "), "d000.yaml") { // positional file names matter for a fault plan
 		if !test(all) {
 			return nil
 		}
